@@ -51,9 +51,9 @@ BIN = ("read_io_header", "read_io_footer", "write_io_header", "write_io_footer",
 
 
 def _translate(k):
-    if k == "context":
+    if k in ("context", "morton_pdep"):
         from harness import cxx2ctx
-        return cxx2ctx.translate(str(C.REPO)), {"scalars": [], "arrays": []}
+        return cxx2ctx.translate(str(C.REPO), k), {"scalars": [], "arrays": []}
     if k in BIN:
         from harness import cxx2bin
         return cxx2bin.translate(str(C.REPO), k), {"scalars": [], "arrays": []}
@@ -75,6 +75,8 @@ def _translate(k):
 def _where(k):
     if k == "context":
         return "array.hpp / algebra/matrix.hpp / algebra/vector.hpp / utility/nd_size.hpp element accessors"
+    if k == "morton_pdep":
+        return "backend/transformer/morton.hpp morton_pdep_mask (BMI2 path)"
     if k in BIN:
         from harness import cxx2bin
         return cxx2bin.KERNELS[k]
